@@ -457,18 +457,23 @@ def r13_3(ctx):
     if not binp:
         ctx.anchor_missing("binary crate facts")
         return
-    ap = ctx.role(binp, "txtpp::BuildFlags::apply_to")
+    ap = ctx.role(binp, "txtpp::main")
     if ap:
+        # (the front end is spliced into main) every value given to Config.trailing_newline by the command line is the negated flag
         good = False
-        for bb, si, st in ap.stmts():
-            if st["k"] == "assign" and st["lhs"]["p"] and st["lhs"]["p"][-1].get("name") == "trailing_newline":
-                lv = C.trace(ap, st["rv"]["op"]) if st["rv"]["k"] == "use" else (
-                    C.trace(ap, st["rv"]["a"]) if st["rv"]["k"] == "unop" and st["rv"]["op"] == "Not" else [])
-                neg_direct = st["rv"]["k"] == "unop" and st["rv"]["op"] == "Not"
-                for l in lv:
-                    if l.kind == "field" and has_field([l], "no_trailing_newline") and (l.neg != neg_direct or (neg_direct and not l.neg)):
-                        good = True
-        if good:
+        bad = False
+        for bb, op, st in field_values(ap, CLI_CONFIG, "trailing_newline"):
+            rv = st.get("rv") or {}
+            neg_direct = rv.get("k") == "unop" and rv.get("op") == "Not"
+            lv = C.trace(ap, rv["a"]) if neg_direct else (C.trace(ap, op) if op is not None else [])
+            if lv and all(l.kind == "field" and any(o in CLI_CONFIG for (o, v, n) in C.pl_fields(l.data)) for l in lv):
+                continue        # `..Config::default()`
+            for l in lv:
+                if l.kind == "field" and has_field([l], "no_trailing_newline") and (l.neg != neg_direct):
+                    good = True
+                else:
+                    bad = True
+        if good and not bad:
             ctx.ok("config.trailing_newline = !flags.no_trailing_newline", site=ctx.site(ap, 0))
         else:
             ctx.violation(["cli-negation"], "the CLI no longer maps trailing_newline = !no_trailing_newline", site=ctx.site(ap, 0))
